@@ -578,7 +578,10 @@ func (v *Decoder) walkNode(ectx evaluationContext, n *html.Node) error {
 									typedResourceAnno = attrProfile.ValueOffsets
 								}
 							}
-						} else {
+						}
+
+						// a value which does not result in a resource is ignored
+						if typedResource == nil {
 							typedResource = ectx.Global.BlankNodeStringFactory.NewBlankNode()
 							typedResourceAnno = nil
 
@@ -715,7 +718,10 @@ func (v *Decoder) walkNode(ectx evaluationContext, n *html.Node) error {
 						typedResourceAnno = newSubjectAnno
 					}
 				}
-			} else {
+			}
+
+			// a value which does not result in a resource is ignored
+			if newSubject == nil {
 				if isRootElement {
 					if s := resolveIRI(ectx, localPrefixMappings, "", localBaseURL, localDefaultVocabulary, false, true); s != nil {
 						newSubject = s
